@@ -5,7 +5,7 @@
    the code is, or from one model-wide set (proposed_fixes/C07_fresh_names_unique_in_model.diff).
    No proofs in this file. *)
 From Coq Require Import List String Bool Arith.
-Require Import OV.Graph.Syntax OV.Rewrite.State.
+Require Import OV.Graph.Syntax OV.Rewrite.Apply OV.Rewrite.State.
 Import ListNotations.
 Local Open Scope string_scope.
 Local Open Scope list_scope.
@@ -47,3 +47,44 @@ Definition ex_shadow_after : graph :=
      Node "" "Abs" [Some "o1"] ["val_0"] [] [];
      Node "" "Neg" [Some "val_0"] ["o"] [] []]
     ["o"].
+
+(* ---- a replacement output that is an EXISTING value (a pattern input, ...) ------------------------------------------ *)
+(* created: the outputs of the replacement nodes; pinned: graph inputs, initializers and graph outputs (names that are part
+   of an interface); outs0: the graph outputs when the rule fires; state: names, current graph outputs, next unused object,
+   number of forwarding Identity nodes added.
+   fx = false, the code as read: every replacement output takes the name of the pattern output and its place among the
+   graph outputs (replace_nodes_and_values).
+   fx = true, proposed_fixes/ready/C07_05: an existing value keeps its name -- the uses are redirected to it when the pattern
+   output is not a graph output; it is forwarded through a new Identity node when both names are pinned; it is renamed only
+   when its name is free (interior value taking over a graph output). *)
+Definition has (x : nat) (l : list nat) : bool := existsb (Nat.eqb x) l.
+
+Definition splice1 (fx : bool) (created pinned outs0 : list nat) (st : vals * list nat * nat * nat) (on : nat * nat)
+  : vals * list nat * nat * nat :=
+  let '(vs, outs, fresh, k) := st in
+  let (o, n) := on in
+  let renamed (x : nat) := (dset Nat.eqb x (name_of o vs) vs, map (fun y => if Nat.eqb y o then x else y) outs) in
+  if negb fx || has n created then (renamed n, fresh, k)
+  else if negb (has o outs0) then (vs, outs, fresh, k)
+  else if has n pinned then (renamed fresh, S fresh, S k)
+  else (renamed n, fresh, k).
+
+(* is_forward: the match is a single Identity node whose input is the value returned for a pinned pattern output: with the
+   repair the rule declines (None), the node needed between two pinned names is there already *)
+Definition splice_names (fx : bool) (created pinned : list nat) (is_forward : bool) (olds news : list nat)
+           (vs : vals) (outs : list nat) (fresh : nat) : option (vals * list nat * nat * nat) :=
+  if fx && is_forward then None
+  else Some (fold_left (splice1 fx created pinned outs) (combine olds news) (vs, outs, fresh, 0)).
+
+(* what the correspondence observes: names of the graph inputs and of the graph outputs afterwards, number of forwarding
+   nodes (None: the rule declined) *)
+Definition observe (inputs : list nat) (vs : vals) (outs : list nat) (r : option (vals * list nat * nat * nat))
+  : list string * list string * option nat :=
+  match r with
+  | None => (names_of_objects inputs vs, names_of_objects outs vs, None)
+  | Some (vs', outs', _, k) => (names_of_objects inputs vs', names_of_objects outs' vs', Some k)
+  end.
+
+Definition obs_eqb (a b : list string * list string * option nat) : bool :=
+  list_eqb String.eqb (fst (fst a)) (fst (fst b)) && list_eqb String.eqb (snd (fst a)) (snd (fst b)) &&
+  opt_eqb Nat.eqb (snd a) (snd b).
